@@ -241,3 +241,32 @@ func specHasHandler(op string) bool { _, ok := opcodeEvalFns[op]; return ok }
 //@ ensures[loc@C03] env.LOC == old(env.LOC)+1
 //@ ensures[emit@C07] vcCalled("Emit")
 //@ assigns Pass1.LOC, ocodeClient.Ocodes
+
+// INT n is emitted as CD ib - two bytes for every n (codegen handleINT.ensures.enc); RET is one byte
+// (handleRET.ensures.enc); LGDT [label] is 0F 01 /2 plus the displacement (handleLGDT.ensures.enc16/32).
+
+//@ func processINT
+//@ props C03 C07
+//@ option no-panic-obligations
+//@ requires env != nil && env.Client != nil
+//@ ensures[loc@C03] vcCalled("Emit") ==> env.LOC == old(env.LOC)+2
+//@ ensures[loc.none@C03] !vcCalled("Emit") ==> env.LOC == old(env.LOC)
+//@ ensures[nodrop@C07] vcCalled("Emit") || vcLoggedError()
+//@ assigns Pass1.LOC, ocodeClient.Ocodes
+
+//@ func processRET
+//@ props C03 C07
+//@ requires env != nil && env.Client != nil
+//@ ensures[loc@C03] env.LOC == old(env.LOC)+1
+//@ ensures[emit@C07] vcCalled("Emit")
+//@ assigns Pass1.LOC, ocodeClient.Ocodes
+
+//@ func processLGDT
+//@ props C03 C07
+//@ option no-panic-obligations
+//@ requires env != nil && env.Client != nil
+//@ calls[mode@C03] (*ng_operand.OperandPegImpl).WithBitMode : arg1 == env.BitMode
+//@ ensures[loc@C03] vcCalled("Emit") ==> vcCalled("CalcOffsetByteSize") && env.LOC == old(env.LOC)+3+int32(vcResult[int]("CalcOffsetByteSize", 0))
+//@ ensures[loc.none@C03] !vcCalled("Emit") ==> env.LOC == old(env.LOC)
+//@ ensures[nodrop@C07] vcCalled("Emit") || vcLoggedError()
+//@ assigns Pass1.LOC, ocodeClient.Ocodes, OperandPegImpl.bitMode, OperandType[]
